@@ -53,6 +53,12 @@ Definition uc_iscomb (s : bytes) : bool :=
   if ((c =? 32) || (c =? 9) || (c =? 10) || ((c <=? 127) && c_isprint c))%N then false
   else uc_acomb (Z.of_N (uc_code s)).
 
+(* the code points at which membership in a range table can change: a and b + 1 of every row; between two
+   consecutive ones the width class of the model is constant (RenProps.width_class_const) -- the driver
+   evaluates the model there when it prints the width classes as runs *)
+Definition bounds_of (tab : list (Z * Z)) : list Z := flat_map (fun r : Z * Z => [fst r; snd r + 1]) tab.
+Definition class_bounds : list Z := bounds_of dwchars ++ bounds_of zwchars ++ bounds_of bchars ++ bounds_of acomb_ranges.
+
 (* ---- ren.c: placeholders and cell widths ---------------------------------------------------- *)
 Definition ph_bits : N :=
   fold_left (fun b (p : bytes * bytes * Z) => N.land b (hd0 (fst (fst p)))) placeholders 65535%N.
